@@ -21,7 +21,7 @@ DIMS = dict(
     pg=[None, "scalar", "mat"],
     pc=[None, "control", "control+", "both"],
     vg=[False, True],
-    vc=[None, "control", "control+", "both"],
+    vc=[None, "control", "control+", "both", "two"],
 )
 
 
